@@ -58,6 +58,10 @@ func randomPacket(c *Ctx, tw *TunWorld, p *TunPlan) CPkt {
 	case 3:
 		return PTunnelAuth("x")
 	case 4:
+		if c.T.Bool(1, 4) {
+			// the request also lists alternate names of the resource (MS-TSGU allows up to three)
+			return PChannelAlts(p.AllowedHost, HostAllowed, [][]string{{p.AllowedHost}, {p.DeniedHost}, {p.DeniedHost, p.UnreachHost, p.AllowedHost}}[c.T.Choose(3)])
+		}
 		return PChannel(p.AllowedHost, HostAllowed)
 	case 5:
 		return PChannel(p.DeniedHost, HostDenied)
